@@ -244,10 +244,13 @@ struct pbase
     int x = 1;
     virtual ~pbase() {}
 };
+// more strictly aligned than its base: the polymorphic deleter has to give the node back with the DERIVED alignment
 struct pderived : pbase
 {
-    int y = 2;
+    int              y = 2;
+    alignas(16) char pad[16];
 };
+static_assert(alignof(pderived) > alignof(pbase), "derived type must be stricter aligned than its base");
 
 // overwrite the dead stack frames below the caller (makes use of a dangling reference into them deterministic)
 __attribute__((noinline)) static void scribble_stack()
@@ -449,7 +452,7 @@ struct fam_base
 {
     static constexpr bool smart = false, has_splice = false, copyable = true, alloc_ctor = true, has_alloc = true,
                           has_erase = true, has_clear = true, direct = false, differential = true, initial_live = true,
-                          destroyable = true, base_convert = false;
+                          destroyable = true, base_convert = false, zero_length = false;
     static constexpr int throw_what = -1, throw_positions = 0; // smart pointer helpers: which helper, how many positions
     template <class P, class C>
     static void init(std::optional<C>& slot, rawlog& home)
@@ -781,7 +784,7 @@ struct F_unique_array : smart_base<F_unique_array>
     {
         return "unique_ptr_array";
     }
-    static constexpr bool copyable = false;
+    static constexpr bool copyable = false, zero_length = true; // allocate_unique<int[]>(alloc, 0) is an operation
     static constexpr int  throw_what = 1, throw_positions = 3;
     template <class P>
     using cont = typename P::uarr;
@@ -878,7 +881,7 @@ enum opkind
 static const char* KNAME[K_COUNT] = {"insert",         "erase_first",    "clear",   "copy_assign",          "move_assign",
                                      "swap",           "splice",         "copy_construct", "move_construct", "destroy",
                                      "copy_construct_with_home_allocator", "move_construct_with_home_allocator",
-                                     "allocate2",      "allocate0", "construct_from_get_allocator",
+                                     "allocate2",      "allocate_zero_elements", "construct_from_get_allocator",
                                      "create_with_throwing_constructor", "convert_to_base_ptr_and_release"};
 
 inline int op_code(int k, int i, int j)
@@ -974,6 +977,15 @@ void apply(world<F, P>& w, int k, int i, int j, int v)
         {
             auto& s = *w.c[i];
             C::blocks().push_back({s.a.allocate(0), 0, s.a});
+        }
+        else if constexpr (F::zero_length)
+        {
+            // array of length 0: allocate_array(0, ...) is still called and has to be matched by a deallocate_array
+            if (!w.c[i])
+                w.c[i].emplace(P::make_unique_array(home, 0));
+            else
+                *w.c[i] = P::make_unique_array(home, 0);
+            w.unspec[i] = false;
         }
         break;
     case K_DERIVE:
@@ -1201,8 +1213,10 @@ void enabled_ops(world<F, PT>& w, state_info<F, PT>& si, prog_out& out)
                     ok = live[i] && F::destroyable;
                     break;
                 case K_ALLOC2:
-                case K_ALLOC0:
                     ok = F::direct;
+                    break;
+                case K_ALLOC0:
+                    ok = F::direct || F::zero_length;
                     break;
                 case K_BASE:
                     ok = F::base_convert;
